@@ -71,19 +71,39 @@ def bracket_exits(prog):
     return fn, recs
 
 
-def guarded_fields(prog):
-    """Attributes of ObjectPool initialised to collections.deque in __init__, and the lock attribute."""
+CONTAINER_CTORS = {"collections.deque": "deque", "deque": "deque", "set": "set", "list": "list"}
+
+
+def _container_kind(val):
+    if isinstance(val, ast.Call) and call_name(val) in CONTAINER_CTORS and not val.args:
+        return CONTAINER_CTORS[call_name(val)]
+    if isinstance(val, ast.List) and not val.elts:
+        return "list"
+    return None
+
+
+def field_kinds(prog):
+    """guarded field -> 'deque' | 'set' | 'list' (what __init__ creates it as)."""
     pool = prog.cls("ObjectPool")
     init = prog.method(pool, "__init__")
-    fields = []
+    kinds = {}
     for n in walk_no_nested(init.node):
         tgt, val = None, None
         if isinstance(n, ast.Assign) and len(n.targets) == 1:
             tgt, val = n.targets[0], n.value
         elif isinstance(n, ast.AnnAssign) and n.value is not None:
             tgt, val = n.target, n.value
-        if tgt is not None and is_self_attr(tgt) and isinstance(val, ast.Call) and call_name(val) in ("collections.deque", "deque"):
-            fields.append(tgt.attr)
+        if tgt is not None and is_self_attr(tgt) and _container_kind(val) is not None:
+            kinds[tgt.attr] = _container_kind(val)
+    return kinds
+
+
+def guarded_fields(prog):
+    """Attributes of ObjectPool initialised to an empty collection (deque, set, list) in __init__, and the lock
+    attribute."""
+    pool = prog.cls("ObjectPool")
+    init = prog.method(pool, "__init__")
+    fields = list(field_kinds(prog))
     locks = set()
     for f in pool.methods.values():
         for n in walk_no_nested(f.node):
@@ -106,8 +126,8 @@ class Obj(namedtuple("Obj", "origin fresh")):
         return super().__new__(cls, origin, fresh)
 
 READ_OPS = {"__len__", "__bool__", "__iter__", "copy", "count", "index"}
-RW_OPS = {"popleft", "pop", "remove"}
-WRITE_OPS = {"append", "appendleft", "clear", "extend", "extendleft", "insert", "rotate", "reverse"}
+RW_OPS = {"popleft", "pop", "remove", "discard"}
+WRITE_OPS = {"append", "appendleft", "add", "update", "clear", "extend", "extendleft", "insert", "rotate", "reverse", "sort"}
 
 
 def lin(sym, c=1):
@@ -139,6 +159,7 @@ class LockDomain(Domain):
     def __init__(self, prog, fn, fields, lock, silent=None):
         super().__init__(prog, fn)
         self.fields = set(fields)
+        self.kinds = field_kinds(prog) if prog is not None else {}
         self.lock = lock
         self.accesses = []  # (field, kind, node, state)   kind in read / rw / write
         self.unlocked = []
@@ -214,6 +235,14 @@ class LockDomain(Domain):
         return super().compare(node, op, l, r, state)
 
     def refine_compare(self, node, op, lexpr, l, rexpr, r, branch, state):
+        if isinstance(op, (ast.In, ast.NotIn)) and isinstance(r, Opaque) and r.tag.startswith("field:"):
+            # `obj in self._x`: a guarded read; what it found holds for the rest of this lock hold
+            field = r.tag[6:]
+            st = self._touch(field, "read", node, state)
+            if isinstance(lexpr, ast.Name):
+                present = branch if isinstance(op, ast.In) else not branch
+                st = st.set(("member", lexpr.id), (field, st.get("#epoch") if st.get("#lock") else -1, present))
+            return st
         if isinstance(l, Lin) and isinstance(r, Lin) and isinstance(op, (ast.Lt, ast.LtE, ast.Gt, ast.GtE)):
             d = lin_add(l, r, -1)  # l - r  (op) 0
             le = isinstance(op, (ast.Lt, ast.LtE))
@@ -287,16 +316,30 @@ class LockDomain(Domain):
             _, field, op = fval.tag.split(":")
             if op in RW_OPS:
                 st = self._touch(field, "rw", node, state)
+                kind = self.kinds.get(field, "deque")
                 if op in ("popleft", "pop"):
-                    return [("ok", Obj("popped:" + field), st), ("exc", Exc(ORD, "IndexError", node.lineno), st)]
+                    return [("ok", Obj("popped:" + field), st), ("exc", Exc(ORD, "KeyError" if kind == "set" else "IndexError", node.lineno), st)]
                 # remove(obj): success => the caller owns obj (removed by this thread in this hold)
+                nm = node.args[0].id if node.args and isinstance(node.args[0], ast.Name) else None
+                known = st.get(("member", nm), None) if nm is not None else None
+                if known is not None and not (known[0] == field and known[1] == st.get("#epoch") and st.get("#lock")):
+                    known = None  # a membership test of another hold says nothing now
                 st_ok = st
-                if node.args and isinstance(node.args[0], ast.Name):
-                    st_ok = st.set(("removed", node.args[0].id), (field, st.get("#epoch")))
-                return [("ok", NONE, st_ok), ("exc", Exc(ORD, "ValueError", node.lineno), st)]
+                if nm is not None:
+                    st_ok = st.set(("removed", nm), (field, st.get("#epoch"))).drop(("member", nm)) if st.has(("member", nm)) else st.set(("removed", nm), (field, st.get("#epoch")))
+                if op == "discard":
+                    # discard(obj) takes obj out if it is there and says nothing: the thread owns it afterwards only if
+                    # it knows (from a membership test in this hold) that it was there
+                    if known is not None:
+                        return [("ok", NONE, st_ok if known[2] else st)]
+                    return [("ok", NONE, st_ok), ("ok", NONE, st)]
+                missing = Exc(ORD, "KeyError" if kind == "set" else "ValueError", node.lineno)
+                if known is not None:
+                    return [("ok", NONE, st_ok)] if known[2] else [("exc", missing, st)]
+                return [("ok", NONE, st_ok), ("exc", missing, st)]
             if op in WRITE_OPS:
                 st = self._touch(field, "write", node, state)
-                if op in ("append", "appendleft") and node.args and isinstance(node.args[0], ast.Name):
+                if op in ("append", "appendleft", "add") and node.args and isinstance(node.args[0], ast.Name):
                     st = st.set(("in", field, node.args[0].id), st.get("#epoch"))
                 if op == "clear":
                     st = st.set(("cleared", field), st.get("#epoch"))
@@ -410,7 +453,7 @@ class LockDomain(Domain):
         cl = state.get("#closed", ())
         if name in cl:
             state = state.set("#closed", tuple(x for x in cl if x != name))
-        for k in [k for k in state.d if isinstance(k, tuple) and len(k) >= 2 and k[-1] == name and k[0] in ("removed", "stamp", "stamp_epoch", "in")]:
+        for k in [k for k in state.d if isinstance(k, tuple) and len(k) >= 2 and k[-1] == name and k[0] in ("removed", "stamp", "stamp_epoch", "in", "member")]:
             state = state.drop(k)
         if value is TOP and node is not None:
             p = getattr(node, "_parent", None)
